@@ -25,6 +25,8 @@ def apply_edit(b, edit):
         m = pep.add_psd_matrix([[(x - x0) ** 2 + 1, t], [t, 1]])
         b.held["t_edit"] = t
         b.held["lmi_edit"] = m
+    elif edit == "block":        # one more point is decomposed by the partition after a solve
+        b.held["blk_d"] = b.part.get_block(b.held["d"], 0)
     elif edit == "infeasible":   # makes the model infeasible
         c = ((x - x0) ** 2 <= -1)
         pep.add_constraint(c)
@@ -70,6 +72,13 @@ def run(item):
     for opts in item["solves"]:
         if opts.get("edit") == "twin":          # the same program built again, to be solved through the other back-end
             b = pepsolve.build(prog)
+        elif opts.get("edit") == "fresh-twin":  # a newly built equivalent model: same program, all edits so far, one solve
+            b = pepsolve.build(prog)
+            for prev in item["solves"]:
+                if prev is opts:
+                    break
+                if prev.get("edit") not in (None, "none", "twin", "fresh-twin"):
+                    apply_edit(b, prev["edit"])
         else:
             apply_edit(b, opts.get("edit", "none"))
         del pepsolve.LOG[:]
